@@ -1,9 +1,9 @@
 #!/bin/bash
 # Confirm a sub-agent's seeded change in its scratch worktree:
 #   demo passes on the clean tree, fails with the patch; the whole existing suite passes with the patch.
-# usage: confirm_mutant.sh <ID> <m1|m2>     (worktree /tmp/wt_<ID>, deliverables in _mutants/<m>)
+# usage: [WT_PREFIX=/tmp/w2_] confirm_mutant.sh <ID> <m1|m2>     (worktree $WT_PREFIX<ID>, deliverables in _mutants/<m>)
 set -u
-ID=$1; M=$2; WT=/tmp/wt_$ID; D=$WT/_mutants/$M; LOG=/tmp/confirm/${ID}_$M.log
+ID=$1; M=$2; WT=${WT_PREFIX:-/tmp/wt_}$ID; D=$WT/_mutants/$M; LOG=/tmp/confirm/${ID}_$M.log
 cd "$WT" || exit 2
 git checkout -q -- . 2>/dev/null
 CRATE=quiver-tests; grep -q "quiver-environment/tests" "$D/run_demo.sh" && CRATE=quiver-environment
